@@ -176,8 +176,26 @@ mod verif_c13_tree {
 
     /// one top-level benchmark b[x, yy] with the real format!: the filter is asked exactly "b::x" and "b::yy", once
     /// each, in order (concrete tree and verdicts: this harness is about the TEXT of the per-argument paths)
+    // format! through a fixed stack buffer and one exact-size String (std's incremental String growth is what makes
+    // format! expensive for CBMC); the formatting machinery itself (Arguments, Display for str) is the real one
+    struct StackBuf { b: [u8; 24], n: usize }
+    impl std::fmt::Write for StackBuf {
+        fn write_str(&mut self, s: &str) -> std::fmt::Result {
+            let mut i = 0; let bytes = s.as_bytes();
+            while i < bytes.len() { if self.n >= 24 { return Err(std::fmt::Error); } self.b[self.n] = bytes[i]; self.n += 1; i += 1; }
+            Ok(())
+        }
+    }
+    fn stack_format(args: std::fmt::Arguments) -> String {
+        let mut sb = StackBuf { b: [0; 24], n: 0 };
+        let _ = std::fmt::write(&mut sb, args);
+        let mut v = Vec::with_capacity(sb.n + 8);
+        let mut i = 0; while i < sb.n { v.push(sb.b[i]); i += 1; }
+        unsafe { String::from_utf8_unchecked(v) }
+    }
     #[kani::proof]
-    #[kani::unwind(8)]
+    #[kani::unwind(26)]
+    #[kani::stub(alloc::fmt::format, stack_format)]
     fn arg_paths_text() {
         static XY: [&str; 2] = ["x", "yy"];
         let mut tree = vec![EntryTree::Leaf { entry: AnyBenchEntry::Bench(&B), args: Some(vec![&XY[0], &XY[1]]) }];
